@@ -22,6 +22,10 @@ var famBounds = map[string][3]int64{
 	"ptrfan-ntp-fqdn":          {32849, 0, 548},
 	"ptrfan-fqdn":              {32854, 0, 548},
 	"ptrfan-overlong-name":     {123, 0, 16},
+	// the pinned decoder rejects pointer chains (measured {342, 0, 118}); the bound is the one of a plain pointer fan,
+	// which is what a decoder that follows chains within the 255-octet limit would cost
+	"ptrchain-fan":             {32847, 0, 548},
+	"ptrchain-fan-short-links": {32849, 0, 548},
 	"unterminated-label-chain": {1030, 0, 16},
 	"many-short-names":         {267, 0, 49},
 	"relay-nesting":            {101, 217, 46},
